@@ -170,6 +170,9 @@ def run(ctx: Ctx):
             continue
         inputs = serialize.input_tuples(widths, prng, 24 if q else 48)
         collect(ctx, m, widths, inputs, rws, {"op": "program", "text": text}, cases, metas)
+    for text, widths, rws in progs.loop_family():
+        m = progs.parse(text)
+        collect(ctx, m, widths, [[serialize.limbs(v, 16)] for v in (0, 5, 65535)], rws, {"op": "program", "text": text}, cases, metas)
     ctx.log(f"{n_tables} one-op tables, {len(cases) - n_tables} programs; {sum(len(c['inputs']) for c in cases)} interpreter runs")
     res = casecheck.run_cases("sem/MachineCases.tla", cases, min_per_shard=8, timeout=3000, count_ends=lambda c: len(c["inputs"]))
     st: dict[str, int] = {}
